@@ -1152,10 +1152,13 @@ pub fn encode_fnmap(entries: &[(u32, u32, u32)], semis: &[bool], omit: &[bool]) 
         let _ = first_in_group;
         first_in_group = false;
         let dcol = i64::from(col) - p_col;
-        let dname = i64::from(name) - p_name;
+        // name indices from 2^31 up are written as what they are modulo 2^32 on the signed side: a
+        // running index that dips below zero (Metro: `nameIndex += delta; names[nameIndex]`)
+        let sname = i64::from(name as i32);
+        let dname = sname - p_name;
         let dline = i64::from(line) - p_line;
         p_col = i64::from(col);
-        p_name = i64::from(name);
+        p_name = sname;
         p_line = i64::from(line);
         crate::refimpl::vlq::write(&mut out, dcol);
         let may_omit = omit.get(i).copied().unwrap_or(false);
